@@ -50,11 +50,14 @@ StepIn(c, In) == [b \in Reach(c) |-> IF b = 0 THEN Params(c)
 RECURSIVE FixIn(_, _)
 FixIn(c, In) == LET n == StepIn(c, In) IN IF n = In THEN In ELSE FixIn(c, n)
 AssignedIn(c) == FixIn(c, [b \in Reach(c) |-> IF b = 0 THEN Params(c) ELSE AllLocals(c)])
-RECURSIVE StmtsOk(_, _, _)
-StmtsOk(sts, j, defd) == IF j > Len(sts) THEN defd
-                         ELSE IF ReadsOf(sts[j]) \subseteq defd THEN StmtsOk(sts, j + 1, defd \cup DefsOfSt(sts[j])) ELSE {-1}
-DefBeforeUse(c) == LET In == AssignedIn(c) IN
-   \A b \in Reach(c) : LET d == StmtsOk(Blk(c, b).st, 1, In[b]) IN d # {-1} /\ TmReads(Blk(c, b).tm) \subseteq d
+\* the variables the program itself declares (field user, from the source ranges of the locals): whether THOSE are assigned before they are
+\* read is the program's affair (`let x: int; return x`, a clause variable read in a later clause) -- the property is about the temporaries
+UserLocals(c) == IF "user" \in DOMAIN c THEN {c.user[j] : j \in 1..Len(c.user)} ELSE {}
+RECURSIVE StmtsOk(_, _, _, _)
+StmtsOk(sts, j, defd, U) == IF j > Len(sts) THEN defd
+                            ELSE IF (ReadsOf(sts[j]) \ U) \subseteq defd THEN StmtsOk(sts, j + 1, defd \cup DefsOfSt(sts[j]), U) ELSE {-1}
+DefBeforeUse(c) == LET In == AssignedIn(c)  U == UserLocals(c) IN
+   \A b \in Reach(c) : LET d == StmtsOk(Blk(c, b).st, 1, In[b], U) IN d # {-1} /\ (TmReads(Blk(c, b).tm) \ U) \subseteq d
 
 \* ---- observe statements (structural side-check of C02) ----------------------------------
 \* every read of a non-constant property through a pointer held in a local is preceded, in its block, by an
